@@ -75,6 +75,14 @@ def run_link(link, tier, seed):
             rec['samples'].append({'link': link['name'], 'case': o['sample']})
         elif 'summary' in o:
             summary = o['summary']
+    if (summary is None or p.returncode not in (0, 1)) and rec['violations']:
+        # the link reported violations and then died (e.g. a memory error in the library while exercising the failing input): the violations stand
+        rec['violations'].append({'what': 'the link process was terminated by signal/exit code %s after reporting the violations above (memory error in the code under test)' % p.returncode,
+                                  'input': None, 'link': link['name'], 'replay_args': None})
+        rec['cases'] = len(rec['violations'])
+        rec['distinct'] = len(rec['violations'])
+        rec['wall_s'] = round(time.time() - t0, 1)
+        return rec
     if summary is None or (p.returncode not in (0, 1)):
         rec['status'] = 'undecided'
         rec['reason'] = 'native link crashed or gave no summary (rc=%s): %s' % (p.returncode, (p.stderr.decode('utf-8', 'replace') or out)[-600:])
